@@ -25,7 +25,7 @@ def c02() -> int:
         "default:DispatchBase>Idle",
     ]
     fsx(c, RES + ({"variant": "core"},), ("hivemc.bundles", "c02", {}), K=3 if quick else 4, H=7 if quick else 9, needs=needs)
-    fsx(c, GRID + ({"pairs": True},), ("hivemc.bundles", "c02", {}), K=3 if quick else 4, H=9 if quick else 11,
+    fsx(c, GRID + ({"pairs": True},), ("hivemc.bundles", "c02", {}), K=2 if quick else 4, H=9 if quick else 11,
         needs=["default:DispatchStation>ChargeQueueing", "default:DispatchBase>ReserveBase"])
     # vehicles with idle draw: one holds the DCFC plug for many steps, a nearly empty one queues and runs dry while waiting
     fsx(c, RES + ({"variant": "full", "mechs": ("thirsty", "thirsty", "quiet"), "name": "W-res/drain"},), ("hivemc.bundles", "c02", {}),
@@ -42,8 +42,11 @@ def c07() -> int:
     quick = tier() == "quick"
     needs = ["c07:pickup", "c07:dropoff", "instr:Idle:ChargeBase:ChargingBase", "instr:Idle:ReserveBase:Idle",
              "instr:Idle:ChargeStation:Idle"]
-    fsx(c, RES + ({"variant": "full" if not quick else "core"},), ("hivemc.bundles", "c07", {}), K=3, H=7 if quick else 9, needs=needs)
-    fsx(c, GRID + ({"pairs": True},), ("hivemc.bundles", "c07", {}), K=3 if quick else 4, H=9 if quick else 11, needs=["c07:pickup", "c07:dropoff"])
+    fsx(c, RES + ({"variant": "full" if not quick else "core"},), ("hivemc.bundles", "c07", {}), K=2 if quick else 3, H=7 if quick else 9, needs=needs)
+    fsx(c, GRID + ({"pairs": True},), ("hivemc.bundles", "c07", {}), K=2 if quick else 4, H=10 if quick else 11, needs=["c07:pickup", "c07:dropoff"])
+    # a base whose station stands on another cell (bases.csv and stations.csv carry independent coordinates)
+    fsx(c, RES + ({"variant": "core", "split_base": True, "pairs": False, "name": "W-res/split-base"},), ("hivemc.bundles", "c07", {}), K=2 if quick else 3, H=7 if quick else 9,
+        needs=["instr:Idle:ChargeBase:ChargingBase", "instr:ChargingStation:ChargeBase:ChargingStation|instr:Idle:ChargeBase:Idle"])
     return c.finish()
 
 
@@ -123,7 +126,7 @@ def c06() -> int:
     fsx(c, RES + ({"variant": "core"},), ("hivemc.bundles", "c06", {}), K=2 if quick else 3, H=7 if quick else 9,
         needs=["c06:judged:DispatchStation", "c06:judged:DispatchBase", "c06:judged:Repositioning", "c06:judged:ServicingTrip", "c06:mid_link_split"])
     fsx(c, REQ + ({},), ("hivemc.bundles", "c06", {}), K=3 if quick else 4, H=8 if quick else 10, needs=["c06:judged:DispatchTrip", "c06:judged:ServicingTrip"])
-    fsx(c, GRID + ({"pairs": True},), ("hivemc.bundles", "c06", {}), K=3 if quick else 4, H=10 if quick else 12,
+    fsx(c, GRID + ({"pairs": True},), ("hivemc.bundles", "c06", {}), K=2 if quick else 4, H=10 if quick else 12,
         needs=["c06:judged:DispatchStation", "c06:judged:DispatchBase", "c06:judged:Repositioning", "c06:judged:ServicingTrip", "c06:mid_link_split"])
     # arrivals with a full battery / tank (small-battery v0 starts full)
     fsx(c, RES + ({"variant": "core", "mechs": ("small", "small", "quiet"), "v0_energy": 1.0, "name": "W-res/full"},), ("hivemc.bundles", "c06", {}), K=2, H=6 if quick else 8,
@@ -143,7 +146,7 @@ def c08() -> int:
     fsx(c, RES + ({"variant": "core"},), ("hivemc.bundles", "c08", {}), K=2 if quick else 3, H=7 if quick else 9,
         needs=["default:DispatchTrip>ServicingTrip", "default:ServicingTrip>Idle", "env:R"])
     fsx(c, REQ + ({},), ("hivemc.bundles", "c08", {}), K=3 if quick else 4, H=8 if quick else 10)
-    fsx(c, GRID + ({},), ("hivemc.bundles", "c08", {}), K=3, H=9 if quick else 11)
+    fsx(c, GRID + ({},), ("hivemc.bundles", "c08", {}), K=2 if quick else 3, H=9 if quick else 11)
     c.assumptions += ["re-adding an id that is already present is outside the alphabet (the API gives it no meaning)"]
     return c.finish()
 
